@@ -523,7 +523,10 @@ Next ==
 
 Spec == Init /\ [][Next]_vars
 
-View == <<cid, idx, tix, h>>        \* distinct states = distinct inputs; the path is history
+\* Distinct states = distinct inputs; the path is history.  The NUMBER of mutations stays in the view: the
+\* same header reached by one mutation and by two must both be kept, because only the former is extended
+\* further (parallel breadth-first search may meet the longer path first).
+View == <<cid, idx, tix, h, Len(muts)>>
 
 (***************************************************************************)
 (* Properties                                                              *)
